@@ -18,6 +18,10 @@ pub struct SysCfg {
     pub arrays: bool,
     /// allow a state of up to 70 bits (non-enumerative checks only)
     pub wide_states: bool,
+    /// sometimes add one wide (65-200 bit) state that only ever holds one of three wide literals: the
+    /// reachable set stays tiny (explicit-state oracles still work) while wide values travel through
+    /// the encoder, the solver's model and the witness
+    pub wide_const_state: bool,
     pub expr_steps: u32,
     /// name some inputs `_input_N` / `_state_N` (anonymous-input removal)
     pub anon_inputs: bool,
@@ -42,6 +46,7 @@ impl Default for SysCfg {
             max_inputs: 3,
             arrays: true,
             wide_states: false,
+            wide_const_state: false,
             expr_steps: 6,
             anon_inputs: false,
             names_and_aliases: true,
@@ -356,6 +361,38 @@ pub fn gen_system(t: &mut Tape, cfg: &SysCfg) -> SysCase {
             }
         };
         sys.bad_states.push(b);
+    }
+    // ---- optional wide state over three literals
+    if cfg.wide_const_state && t.chance(72) {
+        let w = match t.below(4) {
+            0 => *t.pick(&[65u32, 70, 72, 100, 127, 130, 200]),
+            1 => *t.pick(&[128u32, 192]),
+            _ => t.range(65, 200),
+        };
+        // values with bits in the top (partial) word and in the low word
+        let lit = |ctx: &mut Context, t: &mut Tape| -> ExprRef {
+            let v = t.bits(w) | (num_bigint::BigUint::from(1u32) << (w - 1 - t.below(3))) | num_bigint::BigUint::from(t.below(200));
+            ctx.bv_lit(&Bv::new(w, v).to_baa())
+        };
+        let l0 = lit(&mut ctx, t);
+        let l1 = lit(&mut ctx, t);
+        let l2 = lit(&mut ctx, t);
+        let sym = ctx.bv_symbol("wide", w);
+        let cond_steps = 1 + t.below(2);
+        let cond = g.of_type(&mut ctx, t, Type::BV(1), cond_steps);
+        let next = if t.flag() { ctx.ite(cond, l1, sym) } else { ctx.ite(cond, l1, l2) };
+        sys.add_state(&ctx, State { symbol: sym, init: Some(l0), next: Some(next) });
+        if t.flag() {
+            let target = if t.flag() { l1 } else { l0 };
+            let b = ctx.equal(sym, target);
+            if (sys.bad_states.len() as u32) < cfg.max_bads.max(1) && t.flag() {
+                sys.bad_states.push(b);
+            } else if let Some(last) = sys.bad_states.last().copied() {
+                // strengthen an existing property with the wide comparison
+                let both = ctx.and(last, b);
+                *sys.bad_states.last_mut().unwrap() = both;
+            }
+        }
     }
     // ---- outputs
     if cfg.names_and_aliases {
